@@ -78,6 +78,22 @@ fn set_of(s: &str) -> BTreeSet<String> {
     if s == "-" { BTreeSet::new() } else { s.split(',').map(|x| x.to_owned()).collect() }
 }
 
+/// does the generated header declare a member `X f<k>[n]…` (array whose element type is the record X)?
+fn array_member_of(text: &str, x: &str) -> bool {
+    let pat = format!("{x} f");
+    let b = text.as_bytes();
+    let mut from = 0;
+    while let Some(i) = text[from..].find(&pat) {
+        let start = from + i;
+        let before_ok = start == 0 || !(b[start - 1].is_ascii_alphanumeric() || b[start - 1] == b'_');
+        let mut j = start + pat.len();
+        while j < b.len() && b[j].is_ascii_digit() { j += 1; }
+        if before_ok && j > start + pat.len() && j < b.len() && b[j] == b'[' { return true; }
+        from = start + pat.len();
+    }
+    false
+}
+
 fn main() {
     let args = Args::parse();
     quiet_panics();
@@ -189,10 +205,34 @@ fn main() {
                 }
             }
             // oracle 1: rustc accepts every emitted derive / impl (soundness of derives)
-            let uses_blocklist = flags.iter().any(|f| f == "--blocklist-type" || f == "--no-recursive-allowlist");
+            // blocklisted record types: the user supplies the definition — here one with the C size and alignment
+            // and NO trait at all, so that any derive / hand-written impl that goes through it is rejected
+            let mut stubs = String::new();
+            let mut stub_names: BTreeSet<String> = BTreeSet::new();
+            let mut stubs_ok = true;
+            if flags.iter().any(|f| f == "--blocklist-type") {
+                let mut bl: BTreeMap<u64, String> = BTreeMap::new();
+                for r in &log.dumps[0] {
+                    if r.tag == "item" && r.get("kind") == "type" && r.flag("blocklisted") {
+                        let id = r.num("id").unwrap_or(0);
+                        if comp_ids.contains(&id) { bl.insert(id, bgverif::irdump::unesc(r.get("path").rsplit("::").next().unwrap_or(""))); }
+                    }
+                }
+                for r in &log.dumps[0] {
+                    if r.tag != "type" { continue; }
+                    let Some(n) = bl.get(&r.num("id").unwrap_or(0)) else { continue };
+                    if n.is_empty() || n.contains('<') || !stub_names.insert(n.clone()) { continue; }
+                    let lay: Vec<u64> = r.get("layout").split(',').filter_map(|x| x.parse().ok()).collect();
+                    if lay.len() >= 2 && lay[1].is_power_of_two() && !r.flag("fwd") {
+                        stubs.push_str(&format!("#[repr(C, align({}))] pub struct {n} {{ _b: [u8; {}] }}\n", lay[1], lay[0]));
+                    } else { stubs_ok = false; }
+                }
+            }
+            let uses_blocklist = flags.iter().any(|f| f == "--no-recursive-allowlist") || !stubs_ok || (flags.iter().any(|f| f == "--blocklist-type") && stubs.is_empty() && false);
             if !uses_blocklist {
                 rustc_runs += 1;
-                let src = format!("#![allow(warnings)]\n{bindings}\n");
+                if !stubs.is_empty() { *known_hits.entry("(cases compiled against trait-less stubs of blocklisted types)".to_owned()).or_default() += 1; }
+                let src = format!("#![allow(warnings)]\n{stubs}{bindings}\n");
                 if let Err(e) = rustc_check_lib(&scratch, &format!("b{idx}"), &src, "2021") {
                     let errs: Vec<&str> = e.lines().filter(|l| l.starts_with("error[")).collect();
                     let has = |x: &str| flags.iter().any(|f| f == x);
@@ -214,6 +254,9 @@ fn main() {
                             Some("packed_manual_impl_takes_reference")
                         } else if l.contains("E0277") && l.contains("doesn't implement `Debug`") && has("--impl-debug") && has("--no-debug") {
                             Some("impl_debug_member_without_debug")
+                        } else if l.contains("E0277") && l.contains("doesn't implement `Debug`") && has("--impl-debug") && stub_names.iter().any(|x| l.contains(&format!("`{x}`")) && array_member_of(&text, x)) {
+                            // input-defined: --impl-debug and a blocklisted record type is the element type of an array member
+                            Some("impl_debug_array_of_blocklisted")
                         } else if (l.contains("E0204") || (l.contains("E0277") && (l.contains(": Clone`") || l.contains(": Copy`")))) && text.contains("T arr[") {
                             Some("type_param_array_not_through_arrays")
                         } else if l.contains("E0588") && any_packed {
@@ -257,7 +300,7 @@ fn main() {
                             }
                         }
                     }
-                    let prog_src = format!("#![allow(warnings)]\nmod b {{ {bindings} }}\nuse b::*;\nfn main() {{\n// big stack: the probed types can be megabytes large (arrays of arrays of records)\nstd::thread::Builder::new().stack_size(3 << 30).spawn(|| {{\n{body}\nprintln!(\"done\");\n}}).unwrap().join().unwrap();\n}}\n");
+                    let prog_src = format!("#![allow(warnings)]\nmod b {{ {stubs}{bindings} }}\nuse b::*;\nfn main() {{\n// big stack: the probed types can be megabytes large (arrays of arrays of records)\nstd::thread::Builder::new().stack_size(3 << 30).spawn(|| {{\n{body}\nprintln!(\"done\");\n}}).unwrap().join().unwrap();\n}}\n");
                     match rustc_bin(&scratch, &format!("t{idx}"), &prog_src, &[], &[]) {
                         Ok(exe) => {
                             let (rc, o, e) = run_exe(&exe);
